@@ -118,6 +118,7 @@ def execute(case: dict) -> dict:  # noqa: C901, PLR0915
     entries: list = []        # handler entries: dict
     mutants: dict = {}        # id -> record
     peer_adds: list = []      # (cause, key)
+    nets_of: dict = {}        # node name -> Network objects of that node
     sends_by_cause: dict = {}
     captured: dict = {}       # type -> list of datagrams seen
     seen_count: dict = {}
@@ -221,14 +222,32 @@ def execute(case: dict) -> dict:  # noqa: C901, PLR0915
         world.probe("kind:" + kind)
         ctx = world.node_context(tr.host.name, mid)
 
+        def peer_state() -> dict:
+            out = {}
+            for nw in nets_of.get(tr.host.name, ()):
+                for p in nw.verified_peers:
+                    out[(id(nw), p.public_key.key_to_bin())] = tuple(sorted((k.__name__, tuple(v)) for k, v in p.addresses.items()))
+            return out
+
         def hand() -> None:
             state["cur"] = mid
+            before = None if auth else peer_state()
             try:
                 tr.proto.datagram_received(data, src)
             except Exception as e:  # noqa: BLE001
                 world.probe("mutant_raised_out_of_receive:" + type(e).__name__)   # C03's business
             finally:
                 state["cur"] = None
+            if before is not None:
+                # the synchronous part of handling a datagram WITHOUT a valid signature must leave every verified-peer entry alone
+                after = peer_state()
+                for k2, addrs in before.items():
+                    if k2 in after and after[k2] != addrs:
+                        c.violate("no_effect", "non_authentic_changed_verified_peer_address",
+                                  f"non-authentic datagram ({kind} pos={pos} type={typ[1]}) from {src} changed the addresses of verified "
+                                  f"peer ..{k2[1].hex()[-16:]} from {addrs} to {after[k2]}")
+                        break
+                world.probe("verified_peer_entries_compared")
         if auth:
             # authentic (replay, spoofed source, adversary's own message): legitimately state-changing, so it goes after
             # the genuine datagram instead of in front of it
@@ -292,6 +311,8 @@ def execute(case: dict) -> dict:  # noqa: C901, PLR0915
         nodemod.SimNode.__init__ = init
         try:
             nodes = await scn.build(c)
+            for nd in nodes:
+                nets_of[nd.name] = [nd.network] + [o.network for o in getattr(nd, "overlays", []) if getattr(o, "network", None) is not None]
         finally:
             nodemod.SimNode.__init__ = orig_init
         adv_key = default_eccrypto.generate_key(orig_curve)
